@@ -14,6 +14,7 @@ import (
 	"regexp"
 	"strings"
 
+	"raven/internal/db"
 	"raven/verifh/hx"
 	"raven/verifh/mimegen"
 	"raven/verifh/sx"
@@ -410,6 +411,48 @@ func main() {
 				rep.Violate("impl-violation", "attribute agreement (Props.C14.size_is_sum: RFC822.SIZE = length of BODY[])", fmt.Sprintf("message %s (single part, base64 folded at %d columns, the same decoded content as earlier messages): RFC822.SIZE %s but BODY[] has %s octets", tok, cols, ms[1], ml[1]), []string{"msg " + hx.H(msg)})
 			}
 			rep.Hit("fold:size-checked")
+		}
+	}
+	// ---- the same attributes in every store one session can open: a personal mailbox and two role mailboxes, whose stores
+	// number their messages alike (each starts at 1) and hold messages of different lengths; sizes asked before and after the
+	// other store was read, in one session and in a second one ----
+	if o.Replay == "" {
+		shared := w.Mgr.GetSharedDB()
+		w.Login("holder@example.com").Close()
+		domID, _ := db.GetOrCreateDomain(shared, "example.com")
+		hid, _ := db.GetUserByEmail(shared, "holder@example.com")
+		boxes := []string{"INBOX"}
+		for i, addr := range []string{"desk1@example.com", "desk2@example.com"} {
+			if id, err := db.CreateRoleMailbox(shared, addr, domID, ""); err == nil {
+				db.AssignUserToRoleMailbox(shared, hid, id, hid)
+				boxes = append(boxes, "Roles/"+addr+"/INBOX")
+				for k := 0; k < 2; k++ {
+					w.Deliver("s@example.org", []string{addr}, fmt.Sprintf("From: s@example.org\r\nTo: %s\r\nSubject: store %d message %d\r\n\r\n%s", addr, i, k, strings.Repeat("a line of the body\r\n", 3+40*i+7*k)))
+				}
+			}
+		}
+		for k := 0; k < 2; k++ {
+			w.Deliver("s@example.org", []string{"holder@example.com"}, fmt.Sprintf("From: s@example.org\r\nTo: holder@example.com\r\nSubject: own message %d\r\n\r\n%s", k, strings.Repeat("personal\r\n", 100+k)))
+		}
+		for round := 0; round < 2; round++ {
+			c := w.Login("holder@example.com")
+			for _, box := range append(boxes, boxes[0]) {
+				if !c.Cmd("SELECT " + box).OK() {
+					rep.Violate("broken-correspondence", "world", "cannot select "+box, nil)
+					continue
+				}
+				for seq := 1; seq <= 2; seq++ {
+					rep.Case(fmt.Sprintf("stores|%d|%s|%d", round, box, seq), true)
+					raw := strings.Join(c.Cmd(fmt.Sprintf("FETCH %d (RFC822.SIZE BODY.PEEK[])", seq)).Untagged, "\n")
+					ms := regexp.MustCompile(`RFC822\.SIZE (\d+)`).FindStringSubmatch(raw)
+					ml := regexp.MustCompile(`BODY\[\] \{(\d+)\}`).FindStringSubmatch(raw)
+					if ms == nil || ml == nil || ms[1] != ml[1] {
+						rep.Violate("impl-violation", "attribute agreement (Props.C14.size_is_sum: RFC822.SIZE = length of BODY[])", fmt.Sprintf("message %d of %s (a holder of two role mailboxes reading its stores one after the other): FETCH (RFC822.SIZE BODY.PEEK[]) answered %q", seq, box, clip(raw, 200)), []string{"stores " + box})
+					}
+					rep.Hit("stores:size-checked")
+				}
+			}
+			c.Close()
 		}
 	}
 	// ---- ENVELOPE address lists over generated address fields ----
